@@ -28,6 +28,7 @@ import Rooc.Proofs.LinGadgets
 import Rooc.Proofs.LinC10
 import Rooc.Proofs.LinExamples
 import Rooc.Proofs.LinMain
+import Rooc.Proofs.LinCounter
 namespace Rooc.Props.C01
 open Rooc Rooc.Lin
 open Rooc.Lin.Gadget (B01 DomMax DomMin)
@@ -467,6 +468,18 @@ example : ∃ (m : Model (Ext K)) (b : BoundsMap (Ext K)) (d : List (DomVar (Ext
   · intro c hc
     exact ⟨(haff.cons c hc).notAssert, FG_of_AG (haff.cons c hc).lhs, FG_of_AG (haff.cons c hc).rhs, hdef c hc⟩
   · intro ρ _ n bd hl; simp [lookupB] at hl
+
+/-- **Counterexample for the excluded region** (`BoxEnforced` dropped): `max x s.t. c: max{x, 1/2} ≤ 1/2`,
+`x` Boolean, with the bounds map `x ∈ [0, 1/2]` (a tightened Boolean range, as the bounds analysis produced
+before fix 5ec6390): the operand `x` is pruned, the model compiles to the single row `0 ≤ 0`, and `x = 1` is
+feasible for the linear model but not for the source.  Every other hypothesis of `c01_partial` holds. -/
+theorem c01_counterexample :
+    ∃ (m : Model (Ext K)) (b : BoundsMap (Ext K)) (d : List (DomVar (Ext K))) (lm : LinModel (Ext K))
+      (ρ : String → K),
+      linearizeWith m b d = .ok lm ∧ FragModel true m d ∧ DomRel m d ∧ ¬ BoxEnforced b d ∧
+      ¬ (srcFeasible m ρ = true ↔
+          ∃ ρ' : String → K, (∀ x, inScope d x → ρ' x = ρ x) ∧ linFeasible lm ρ' = true) :=
+  boxEnforced_needed (k := (1 / 2 : K)) (by norm_num) (by norm_num)
 
 /-- `BoxEnforced` from a per-entry check. -/
 theorem boxEnforced_check {b : BoundsMap (Ext K)} {d : List (DomVar (Ext K))}
